@@ -50,7 +50,8 @@ def handle (line : String) : List String :=
     let files := filesOfArgs k.toNat! rest
     let extra := rest.drop (2 * k.toNat!)
     let desc := extra.contains "desc"
-    pipeTrace (stages.splitOn ",") files desc
+    let x := (extra.find? (·.startsWith "x:")).map (fun s => (s.drop 2).toString)
+    pipeTrace (stages.splitOn ",") files desc (x.getD "")
   | _ => ["BADOP"]
 
 partial def loop (h : IO.FS.Stream) (out : IO.FS.Stream) : IO Unit := do
